@@ -134,6 +134,11 @@ def stepOp (st : St) (i : Nat) (op : String) : Option St :=
       match mkRes nm ty (acc = "1") cn with
       | .ok r => let (m, a) := allocRes st.m r; pure { st with m := m, rv := st.rv ++ [a] }
       | .error e => pure { st with errs := (toString i ++ ":" ++ toString e) :: st.errs }
+  | ["u", ref, v, t, _tag] => do   -- 5th field: numpy types of value/total, used by the harness only
+      let a ← resolve st ref
+      let v ← parseRat? v
+      let t ← optRat? t
+      pure (record st i (updR st.m a ⟨v, t⟩))
   | ["u", ref, v, t] => do
       let a ← resolve st ref
       let v ← parseRat? v
